@@ -21,7 +21,7 @@ func init() {
 			"E7 timers dereferenced without a nil test are armed before (or within the same critical section as) the store that publishes their owner in a shared table; " +
 			"C15.4 Allocation.Close / removeTCPConnection run only with Manager.lock in the entry lockset; every close(ch) is preceded by a closed-test or happens once by construction; " +
 			"cb operator callbacks are not invoked with Manager.lock possibly held (two teardown events are the listed exceptions); " +
-			"hash no hash/HMAC state shared through a struct field or captured variable is used without a lock (none exists today). C18.wr (=C12.12) the transaction result is handed over; C18.nm a map field that is inserted into is never assigned nil.",
+			"hash no hash/HMAC state shared through a struct field or captured variable is used without a lock (none exists today). C18.wr (=C12.12) the transaction result is handed over; C18.nm a map field that is inserted into is never assigned nil. fd (=C12.2) Find and Delete of a completed transaction sit inside one hold of Client.mutexTrMap.",
 		NotCovered: "The race detector's verdict and deadlock freedom under every schedule are dynamic; what is decided is the lock discipline (necessary conditions). Check-then-act windows between a guard and its use are not covered.",
 		Run:        runC18,
 	})
@@ -41,6 +41,7 @@ func runC18(c *Ctx) {
 	ruleSharedHashState(c, "C18.hash")
 	ruleResultHandOff(c, "C18.wr")
 	ruleNoNilMapField(c, "C18.nm")
+	ruleCompletionByRemover(c, "C18.fd")
 }
 
 // ruleCallbacksOutsideManagerLock: operator-supplied callbacks run without the manager-wide
